@@ -10,7 +10,7 @@ C13  inputs unchanged
 """
 import z3
 
-from sx.values import (json_identical, land, lnot, lor, implies, py_equal, snapshot, SymBool)
+from sx.values import (json_identical, unchanged, land, lnot, lor, implies, py_equal, snapshot, SymBool)
 from gen import docs
 from oracles.refpatch import refpatch, RefPatchError
 from oracles.refapply import refapply, RefApplyError, ordering_errors
@@ -118,9 +118,9 @@ def purity_before(b, l, r):
 
 def purity_after(E, b, l, r, snaps, what):
     sb, sl, sr = snaps
-    E.check("%s-leaves-base-unchanged" % what, json_identical(b, sb))
-    E.check("%s-leaves-local-unchanged" % what, json_identical(l, sl))
-    E.check("%s-leaves-remote-unchanged" % what, json_identical(r, sr))
+    E.check("%s-leaves-base-unchanged" % what, unchanged(b, sb))
+    E.check("%s-leaves-local-unchanged" % what, unchanged(l, sl))
+    E.check("%s-leaves-remote-unchanged" % what, unchanged(r, sr))
 
 
 STR_ROOTS = ["", "a\n", "a\nb\n", "a\nc\n", "a\nb", "x\na\nb\n", "quite another text\n"]
@@ -206,13 +206,13 @@ def make_triples(root, alts, n, strat="none", leafkind="int", props=("C05",), kn
             dl, dr = nbdime.diff(b, l), nbdime.diff(b, r)
             sdl, sdr = snapshot(dl), snapshot(dr)
             decide_merge_with_diff(b, l, r, dl, dr, strategies_for(strat))
-            E.check("decide-leaves-supplied-local-diff-unchanged", json_identical(dl, sdl))
-            E.check("decide-leaves-supplied-remote-diff-unchanged", json_identical(dr, sdr))
+            E.check("decide-leaves-supplied-local-diff-unchanged", unchanged(dl, sdl))
+            E.check("decide-leaves-supplied-remote-diff-unchanged", unchanged(dr, sdr))
             sd = snapshot([dict(d) for d in ds])
             from nbdime.merging.decisions import apply_decisions
             m2 = apply_decisions(b, ds)
-            E.check("apply-leaves-base-unchanged", json_identical(b, snaps[0]))
-            E.check("apply-leaves-decisions-unchanged", json_identical([dict(d) for d in ds], sd))
+            E.check("apply-leaves-base-unchanged", unchanged(b, snaps[0]))
+            E.check("apply-leaves-decisions-unchanged", unchanged([dict(d) for d in ds], sd))
             sh = shared_containers(m2, [("base", b)])
             E.check("merged-shares-no-container-with-base", not sh, info=sh[:3])
         decision_obligations(E, b, l, r, m, ds, props, known, relabel_ok=(strat in (None, "none", "mergetool")))
